@@ -68,9 +68,16 @@ pub fn doc_strategy(
                 let text = match class {
                     "valid" => json!({ name.as_str(): body }).to_string(),
                     "unknown-name" => {
-                        let m = mutations(&name);
-                        let pick = m[(aux as usize) % m.len()].clone();
-                        json!({ pick: body }).to_string()
+                        // one in four: the spellings of the helper variant generic message types carry
+                        if aux % 4 == 3 {
+                            let pick = ["__phantom", "_phantom", "_Phantom", "phantom"][(aux2 as usize) % 4];
+                            let b = [Value::Null, json!([]), json!({}), json!([null])][((aux2 >> 8) as usize) % 4].clone();
+                            json!({ pick: b }).to_string()
+                        } else {
+                            let m = mutations(&name);
+                            let pick = m[(aux as usize) % m.len()].clone();
+                            json!({ pick: body }).to_string()
+                        }
                     }
                     "other-kind-name" => {
                         let pick = if others.is_empty() { format!("{name}_zz") } else { others[(aux as usize) % others.len()].clone() };
